@@ -546,10 +546,17 @@ struct GDump {
                     size_t guard = 0;
                     while (!q.empty() && guard++ < 100000) { const ContentSpecNode* n = q.front(); q.pop_front(); owner[n] = "particle"; if (n->getFirst()) q.push_back(n->getFirst()); if (n->getSecond()) q.push_back(n->getSecond()); } }
             }
-            if (RefHashTableOf<XercesGroupInfo>* gr = g->getGroupInfoRegistry()) { RefHashTableOfEnumerator<XercesGroupInfo> e(gr, false, XMLPlatformUtils::fgMemoryManager); while (e.hasMoreElements()) owner[&e.nextElement()] = "group"; }
+            if (RefHashTableOf<XercesGroupInfo>* gr = g->getGroupInfoRegistry()) { RefHashTableOfEnumerator<XercesGroupInfo> e(gr, false, XMLPlatformUtils::fgMemoryManager);
+                while (e.hasMoreElements()) { XercesGroupInfo& gi = e.nextElement(); owner[&gi] = "group";
+                    std::deque<const ContentSpecNode*> q; if (gi.getContentSpec()) q.push_back(gi.getContentSpec());
+                    size_t guard = 0;
+                    while (!q.empty() && guard++ < 100000) { const ContentSpecNode* n = q.front(); q.pop_front(); owner[n] = "particle"; if (n->getFirst()) q.push_back(n->getFirst()); if (n->getSecond()) q.push_back(n->getSecond()); } } }
             if (RefHashTableOf<XercesAttGroupInfo>* ag = g->getAttGroupInfoRegistry()) { RefHashTableOfEnumerator<XercesAttGroupInfo> e(ag, false, XMLPlatformUtils::fgMemoryManager); while (e.hasMoreElements()) owner[&e.nextElement()] = "attributeGroup"; }
             if (DatatypeValidatorFactory* f = g->getDatatypeRegistry()) if (RefHashTableOf<DatatypeValidator>* ur = f->getUserDefinedRegistry()) {
-                RefHashTableOfEnumerator<DatatypeValidator> e(ur, false, XMLPlatformUtils::fgMemoryManager); while (e.hasMoreElements()) owner[&e.nextElement()] = "simpleType"; }
+                RefHashTableOfEnumerator<DatatypeValidator> e(ur, false, XMLPlatformUtils::fgMemoryManager);
+                while (e.hasMoreElements()) { DatatypeValidator& d = e.nextElement(); owner[&d] = "simpleType";
+                    if (RefHashTableOf<KVStringPair>* fh = d.getFacets()) { RefHashTableOfEnumerator<KVStringPair> fe(fh, false, XMLPlatformUtils::fgMemoryManager); while (fe.hasMoreElements()) owner[&fe.nextElement()] = "facet"; }
+                    if (d.getEnumString()) owner[d.getEnumString()] = "enumeration"; } }
             std::vector<std::string> v; RefHashTableOf<XSAnnotation, PtrHasher>* ah = g->getAnnotations();
             if (ah) {
                 RefHashTableOfEnumerator<XSAnnotation, PtrHasher> ae(ah, false, XMLPlatformUtils::fgMemoryManager);
